@@ -654,7 +654,7 @@ func partB(rep *kit.Report) {
 				}
 			}
 		}
-		for _, env := range []string{"val", "", "x\ny", "{$V}"} {
+		for ei, env := range []string{"val", "", "x\ny", "{$V}"} {
 			if env == "" {
 				os.Unsetenv("V")
 			} else {
@@ -665,6 +665,9 @@ func partB(rep *kit.Report) {
 				if lay.crlf && multiline {
 					continue // a CR inside a quoted token is content, not layout
 				}
+				if ei >= 2 && li%8 != 0 && !rep.Thorough() {
+					continue // quick tier: the two unusual environment values with every eighth layout
+				}
 				if len(ast) == 1 && li%5 == 0 {
 					lay.noBraces = true
 					lay.braceNL = false
@@ -673,6 +676,9 @@ func partB(rep *kit.Report) {
 					for mode := 1; mode <= 7; mode++ {
 						if split == -1 && mode >= 2 {
 							continue
+						}
+						if mode >= 6 && li%4 != 0 && !rep.Thorough() {
+							continue // quick tier: the glob modes with every fourth layout
 						}
 						if lay.noBraces && (mode == 2 || mode == 3) {
 							continue // a snippet before a brace-less block would swallow it: not a well-formed rendering
